@@ -119,149 +119,52 @@ def rule_r2(repo):
     return rr
 
 
-def _advances(stmts, var):
-    """True when every path through stmts either raises or performs `var += ...` / `var = ...`."""
-    for s in stmts:
-        if isinstance(s, ast.AugAssign) and isinstance(s.target, ast.Name) and s.target.id == var and isinstance(s.op, ast.Add):
-            return True
-        if isinstance(s, ast.Raise):
-            return True
-        if isinstance(s, ast.Return):
-            return True
-        if isinstance(s, ast.If):
-            if _advances(s.body, var) and _advances(s.orelse, var):
-                return True
-        if isinstance(s, ast.Try):
-            if _advances(s.body, var) and all(_advances(h.body, var) for h in s.handlers):
-                return True
-    return False
-
-
 def rule_r3(repo):
-    rr = RuleResult('C12.R3', 'the stream scanner and the CLI catch the root library error; the scanner always advances')
-    gen = repo.func('decoder', 'generate_bufr_message')
-    loops = [n for n in gen.node.body if isinstance(n, ast.While)]
-    if len(loops) != 1:
-        raise AnalysisError('generate_bufr_message: expected one top-level while loop')
-    loop = loops[0]
-    tries = [s for s in loop.body if isinstance(s, ast.Try)]
-    if len(tries) != 1:
-        raise AnalysisError('generate_bufr_message: expected one try statement in the scan loop')
-    t = tries[0]
-    # the scan variable
-    var = None
-    if isinstance(loop.test, ast.Compare) and isinstance(loop.test.left, ast.Name):
-        var = loop.test.left.id
-    if var is None:
-        raise AnalysisError('generate_bufr_message: cannot identify the scan position variable')
-    # decoder.process calls must be inside the try body
-    for c in ast.walk(loop):
-        if isinstance(c, ast.Call) and norm(c.func) == 'decoder.process':
-            inside = any(c is x for s in t.body for x in ast.walk(s)) or any(c is x for h in t.handlers for s in h.body for x in ast.walk(s))
-            rr.instance('decoder.process call at line offset %d inside try' % (c.lineno - gen.node.lineno))
-            if not inside:
-                rr.fail('generate_bufr_message:process-outside-try', '%s:%d' % (gen.module.relpath, c.lineno),
-                        'decoder.process is called outside the try block of the scan loop')
-    roots = []
-    for h in t.handlers:
-        ts = h.type.elts if isinstance(h.type, ast.Tuple) else ([h.type] if h.type is not None else [])
-        names = [norm(x) for x in ts]
-        rr.instance('handler: except %s' % ', '.join(names))
-        if h.type is None or any(n in (ROOT, 'Exception', 'BaseException') for n in names):
-            roots.append(h)
-    if not roots:
-        rr.fail('generate_bufr_message:handler-type', '%s:%d' % (gen.module.relpath, t.lineno),
-                'no handler of the scan loop catches the root library error %s: a subclass-only handler lets other '
-                'library errors abort the stream' % ROOT)
-    for h in roots:
-        # re-raise when not continuing
-        first = h.body[0] if h.body else None
-        ok = isinstance(first, ast.If) and 'continue_on_error' in norm(first.test) and \
-            any(isinstance(x, ast.Raise) for x in first.body) and norm(first.test).startswith('not ')
-        rr.instance('handler re-raises unless continue_on_error')
-        if not ok:
-            rr.fail('generate_bufr_message:reraise', '%s:%d' % (gen.module.relpath, h.lineno),
-                    'the handler does not begin with `if not continue_on_error: raise`: errors are swallowed when '
-                    'the caller did not ask to continue')
-        rest = h.body[1:] if ok else h.body
-        rr.instance('handler advances %s on every path' % var)
-        if not _advances(rest, var):
-            rr.fail('generate_bufr_message:advance', '%s:%d' % (gen.module.relpath, h.lineno),
-                    'a path through the error handler does not advance %s: the damaged message is retried forever '
-                    'or following messages are lost' % var)
-        # nested recovery decode must itself be guarded by the root error
-        for n in ast.walk(h):
-            if isinstance(n, ast.Try) and n is not t:
-                names = [norm(x.type) for x in n.handlers if x.type is not None]
-                rr.instance('nested recovery try: except %s' % ', '.join(names))
-                if not any(x in (ROOT, 'Exception') for x in names) and not any(x.type is None for x in n.handlers):
-                    rr.fail('generate_bufr_message:nested-handler', '%s:%d' % (gen.module.relpath, n.lineno),
-                            'the metadata-only recovery decode in the handler is not guarded by %s' % ROOT)
-    # CLI
+    rr = RuleResult('C12.R3', 'the command line catches the root library error (no traceback); the scanner part is decided by the fold in R5')
     main = repo.func('__init__', 'main')
     cli_ok = False
     for n in ast.walk(main.node):
         if isinstance(n, ast.Try):
-            if any('command_decode' in norm(s) for s in n.body for s in [s]):
+            if any('command_decode' in norm(s) for s in n.body):
                 for h in n.handlers:
                     ts = h.type.elts if isinstance(h.type, ast.Tuple) else ([h.type] if h.type is not None else [])
-                    if any(norm(x) == ROOT for x in ts):
-                        # handler must not re-raise
+                    if any(norm(x) in (ROOT, 'Exception') for x in ts) or h.type is None:
                         if not any(isinstance(x, ast.Raise) for s in h.body for x in ast.walk(s)):
                             cli_ok = True
     rr.instance('main(): except %s around the command dispatch' % ROOT)
     if not cli_ok:
         rr.fail('main:handler', main.where, 'main() does not catch %s around the command dispatch: the CLI would print a traceback' % ROOT)
-    rr.require_floor(6)
+    rr.require_floor(1)
     return rr
 
 
 def rule_r4(repo):
-    rr = RuleResult('C12.R4', 'the expected-value validation is executed for every section parameter unless disabled')
+    rr = RuleResult('C12.R4', 'expected values (start / stop signature) are validated for every parameter unless explicitly disabled; folded')
+    from sa.rules.c04 import SectionModel, SecInterp, PosIO, param, message
+    from sa.patheval import Obj, Sym, Top
     fi = repo.own_method('Decoder', 'process_section')
-    loops = [n for n in fi.node.body if isinstance(n, ast.For) and norm(n.iter) == 'section']
-    if len(loops) != 1:
-        raise AnalysisError('Decoder.process_section: expected one `for parameter in section` loop')
-    loop = loops[0]
-    pv = loop.target.id
-    found = False
-    for i, s in enumerate(loop.body):
-        if isinstance(s, ast.If) and ('%s.expected' % pv) in norm(s.test):
-            raises = [r for x in s.body for r in ast.walk(x) if isinstance(r, ast.Raise)]
-            asserts = [r for x in s.body for r in ast.walk(x) if isinstance(r, ast.Assert)]
-            txt = norm(s.test)
-            compares = ('%s.value != %s.expected' % (pv, pv)) in txt or ('%s.expected != %s.value' % (pv, pv)) in txt
-            if raises and compares and all(is_lib_error(repo, exception_class_of_raise(repo, fi, r)) for r in raises):
-                found = True
-            elif raises and not compares:
-                # `if expected is not None: if value != expected: raise`
-                inner = [x for x in s.body if isinstance(x, ast.If)]
-                if any(('%s.value != %s.expected' % (pv, pv)) in norm(x.test) for x in inner):
-                    found = True
-            elif asserts:
-                found = False
-            # no `continue` before the validation
-            for j in range(i):
-                if any(isinstance(x, ast.Continue) for x in ast.walk(loop.body[j])):
-                    rr.fail('Decoder.process_section:continue-before-check', '%s:%d' % (fi.module.relpath, loop.body[j].lineno),
-                            'a `continue` before the expected-value validation lets some parameters skip it')
-    rr.instance('Decoder.process_section validates parameter.expected at top level of the parameter loop')
-    if not found:
-        rr.fail('Decoder.process_section:expected-check', fi.where,
-                'no top-level statement of the parameter loop raises a library error when parameter.value differs from '
-                'parameter.expected: a damaged start/stop signature would go unnoticed (or surface as a non-library error)')
-    # the switch that disables it
-    proc = repo.own_method('Decoder', 'process')
-    guarded = False
-    for n in ast.walk(proc.node):
-        if isinstance(n, ast.If) and norm(n.test) == 'ignore_value_expectation':
-            if any('ignore_value_expectation' in norm(x) and 'section_configurer' in norm(x) for x in n.body):
-                guarded = True
-    unguarded = [n for n in ast.walk(proc.node) if isinstance(n, ast.Attribute) and n.attr == 'ignore_value_expectation']
-    rr.instance('Decoder.process adds the ignore_value_expectation transformer only on request')
-    if not guarded or len(unguarded) != 1:
-        rr.fail('Decoder.process:ignore-switch', proc.where,
-                'the configuration transformer that removes expectations is not guarded by `if ignore_value_expectation:`')
+    cases = [
+        ('stop signature damaged', [param('stop_signature', 32, 'bytes', expected=b'7777')], [b'7776'], 'error'),
+        ('stop signature intact', [param('stop_signature', 32, 'bytes', expected=b'7777')], [b'7777'], 'ok'),
+        ('start signature damaged, later parameter fine', [param('start_signature', 32, 'bytes', expected=b'BUFR'), param('length', 24), param('edition', 8)],
+         [b'BUFX', 100, 4], 'error'),
+        ('second of two expected parameters damaged', [param('a', 8, expected=1), param('b', 8, expected=2)], [1, 3], 'error'),
+        ('no expectation', [param('length', 24), param('edition', 8)], [100, 4], 'ok'),
+        ('expectation removed (ignore_value_expectation)', [param('stop_signature', 32, 'bytes', expected=None)], [b'7776'], 'ok'),
+    ]
+    for name, params, reads, want in cases:
+        it = SecInterp(repo, 'Decoder', 0)
+        res = it.run_function(fi, lambda: {'self': Obj('Decoder', {}), 'bufr_message': message(4), 'bit_reader': PosIO(0, list(reads)),
+                                           'section': SectionModel([Obj(p.cls, dict(p.fields)) for p in params], {'index': 5})}, self_class='Decoder')
+        rr.instance('%s -> %s' % (name, want))
+        for r in res:
+            if want == 'error':
+                if r.ok or not is_lib_error(repo, r.exc.cls):
+                    rr.fail('Decoder.process_section:expected-check', fi.where, '%s: outcome %s; a value different from the expected one must raise a %s' % (name, r.describe(), ROOT),
+                            witness={'case': name})
+            else:
+                if not r.ok:
+                    rr.fail('Decoder.process_section:expected-check:spurious', fi.where, '%s: raises %s' % (name, r.exc.cls), witness={'case': name})
     # layouts: start and stop signatures carry expectations
     s0 = repo.layout(0, None)
     s5 = repo.layout(5, None)
@@ -270,7 +173,18 @@ def rule_r4(repo):
     rr.instance('layout: start_signature expected %r, stop_signature expected %r' % (exp0, exp5))
     if exp0 != ['BUFR'] or exp5 != ['7777']:
         rr.fail('layouts:signatures', s5['__file__'], 'start/stop signature expectations are %r / %r' % (exp0, exp5))
-    rr.require_floor(3)
+    # SectionParameter keeps the expectation as bytes (what the reader returns)
+    sp = repo.own_method('SectionParameter', '__init__')
+    from sa.rules.c19 import BitInterp
+    bi = BitInterp(repo, 'SectionParameter')
+    res = bi.run_function(sp, lambda: {'self': Obj('SectionParameter', {}), 'name': 'stop_signature', 'nbits': 32, 'data_type': 'bytes', 'expected': '7777',
+                                       'as_property': False, 'value': None}, self_class='SectionParameter')
+    rr.instance('SectionParameter stores a text expectation as bytes')
+    for r in res:
+        got = r.locals['self'].fields.get('expected') if r.ok else r.describe()
+        if got != b'7777':
+            rr.fail('SectionParameter.__init__:expected-bytes', sp.where, "the expectation '7777' is stored as %r; the reader returns bytes, so the comparison would never match" % (got,))
+    rr.require_floor(7)
     return rr
 
 
